@@ -20,6 +20,8 @@ def run(chk):
     n = forwarding.check_forwarding(chk, c, 'C01-F', ('version',), check_own=True,
                                     only_callers=lambda fq: fq.split('.')[0] in ('core', 'parser', 'validation', 'factories'))
     chk.floor('call sites taking a version', n, 100)
+    from . import c06
+    c06.transparency(chk, c, 'C01-E')
     chk.assume('datatype objects re-encode their own text (TM/DTM %f slicing, Decimal printing, strftime) -- run-time values, declined')
     chk.assume('trailing-empty trimming versus the canonical form is value dependent, declined')
     chk.exhaustive = True
